@@ -113,6 +113,28 @@ fn sha_run<D: crate::sc_wstream::Key + Sig>(m: usize, ids: &[u64], ghosts: bool)
     sk.get_signature().iter().map(|d| d.to_id()).collect()
 }
 
+/// registers of a sketcher that was given the keys `ids` (in this order, one batch, all with the same weight)
+fn sha_regs<D: crate::sc_wstream::Key + Sig>(m: usize, ids: &[u64]) -> Vec<u64> {
+    let mut sk = ProbMinHash3aSha::<D>::new(m, D::from_id(crate::sc_wstream::PLACEHOLDER));
+    let mut mp: IndexMap<D, f64, SeedBH> = IndexMap::with_hasher(SeedBH(3));
+    for i in ids {
+        mp.insert(D::from_id(*i), 1.5);
+    }
+    sk.hash_weigthed_idxmap(&mp);
+    sk.verif_registers().0.iter().map(|x| x.to_bits()).collect()
+}
+
+fn sha_regs_dispatch(k: ShaKey, m: usize, ids: &[u64]) -> Vec<u64> {
+    match k {
+        ShaKey::U64 => sha_regs::<u64>(m, ids),
+        ShaKey::U32 => sha_regs::<u32>(m, ids),
+        ShaKey::VecU8 => sha_regs::<Vec<u8>>(m, ids),
+        ShaKey::Str => sha_regs::<String>(m, ids),
+        ShaKey::VecU16 => sha_regs::<Vec<u16>>(m, ids),
+        ShaKey::VecU32 => sha_regs::<Vec<u32>>(m, ids),
+    }
+}
+
 fn sha_dispatch(k: ShaKey, m: usize, ids: &[u64], ghosts: bool) -> Vec<u64> {
     match k {
         ShaKey::U64 => sha_run::<u64>(m, ids, ghosts),
@@ -155,13 +177,35 @@ impl Scenario for SigSc {
             .collect();
         let tl = rng.urange(0, 40);
         let alphabet: Vec<char> = "abcXYZ019 -_éß∑😀".chars().collect();
-        let text: String = (0..tl).map(|_| *rng.pick(&alphabet)).collect();
+        let mut text: String = (0..tl).map(|_| *rng.pick(&alphabet)).collect();
+        match rng.below(12) {
+            0 => text.push('\n'),
+            1 => text.push_str("\r\n"),
+            2 => text.push(' '),
+            3 => text.insert(0, '\n'),
+            4 => text.push('\0'),
+            5 => text.push('\t'),
+            _ => {}
+        }
         let sha = if rng.chance(0.3) {
             let k = *rng.pick(&[ShaKey::U64, ShaKey::U32, ShaKey::VecU8, ShaKey::Str, ShaKey::VecU16, ShaKey::VecU32]);
             let m = rng.urange(2, 32);
             let nk = rng.urange(1, 40);
             let ids = crate::sc_stream::gen_items(rng, nk, crate::nodes::ElemT::U32).into_iter().filter(|i| *i < 0xffff_fff0).collect::<Vec<_>>();
-            Some((k, m, if ids.is_empty() { vec![5] } else { ids }))
+            let mut ids = if ids.is_empty() { vec![5] } else { ids };
+            if matches!(k, ShaKey::VecU8 | ShaKey::Str | ShaKey::VecU16 | ShaKey::VecU32) {
+                // keys with a long common prefix; the empty key somewhere behind another key
+                if rng.chance(0.25) {
+                    for i in ids.iter_mut() {
+                        *i |= crate::sc_wstream::LONG_KEY;
+                    }
+                }
+                if rng.chance(0.2) {
+                    let pos = rng.urange(1, ids.len());
+                    ids.insert(pos, crate::sc_wstream::EMPTY_KEY);
+                }
+            }
+            Some((k, m, ids))
         } else {
             None
         };
@@ -260,6 +304,47 @@ impl Scenario for SigSc {
                     })?;
                 } else {
                     ctx.count("skipped:zero-weight-entries-rejected-by-the-variant");
+                }
+            }
+            // different keys have different identities inside the sketcher too, whatever entry of the trait it uses and
+            // whatever it hashed before: the registers of a sketcher given two keys (one batch, equal weights) are the
+            // position-wise minimum of the registers of two sketchers given one of the keys each
+            let mut uniq: Vec<u64> = vec![];
+            for i in ids {
+                if !uniq.contains(i) {
+                    uniq.push(*i);
+                }
+            }
+            if uniq.len() >= 2 {
+                let j = match uniq.iter().position(|i| *i == crate::sc_wstream::EMPTY_KEY) {
+                    Some(p) if p >= 1 => p - 1,
+                    _ => (uniq[0] % (uniq.len() as u64 - 1)) as usize,
+                };
+                let (a, b) = (uniq[j], uniq[j + 1]);
+                if b == crate::sc_wstream::EMPTY_KEY {
+                    ctx.count("probe:empty-key-hashed-after-another-key");
+                }
+                if a & crate::sc_wstream::LONG_KEY != 0 {
+                    ctx.count("probe:keys-with-long-common-prefix");
+                }
+                let (kk, mm) = (*k, *m);
+                if let Ok((rab, rba, ra, rb)) =
+                    caught(move || (sha_regs_dispatch(kk, mm, &[a, b]), sha_regs_dispatch(kk, mm, &[b, a]), sha_regs_dispatch(kk, mm, &[a]), sha_regs_dispatch(kk, mm, &[b])))
+                {
+                    let join: Vec<u64> = ra.iter().zip(rb.iter()).map(|(x, y)| f64::from_bits(*x).min(f64::from_bits(*y)).to_bits()).collect();
+                    ctx.check("C18", "distinct-keys-keep-distinct-identities-inside-the-sketcher", rab == join && rba == join && ra != rb, || {
+                        format!(
+                            "{:?} keys {:#x} and {:#x} (m {}): the registers of the sketcher given both are not the position-wise minimum of the registers of the two single-key sketchers ({} of {} positions differ in order a,b; {} in order b,a){}",
+                            k,
+                            a,
+                            b,
+                            m,
+                            rab.iter().zip(join.iter()).filter(|(x, y)| x != y).count(),
+                            m,
+                            rba.iter().zip(join.iter()).filter(|(x, y)| x != y).count(),
+                            if ra == rb { "; the two single-key sketchers have identical registers" } else { "" }
+                        )
+                    })?;
                 }
             }
             let bad = s1.iter().position(|i| !ids.contains(i));
